@@ -65,6 +65,7 @@ func NewComponents(spec specification.Components, cfg Config) (zero Components, 
 				Name:        rb.Name + "JSON",
 				Description: rb.V.Value().Description,
 				GoTypeFn:    StringRender(ref.Name + "JSON").Render,
+				IsAlias:     true,
 			})
 		} else {
 			for _, cnt := range rb.V.Value().Content.List {
@@ -84,6 +85,7 @@ func NewComponents(spec specification.Components, cfg Config) (zero Components, 
 					Name:        name,
 					Description: rb.V.Value().Description,
 					GoTypeFn:    schema.RenderGoType,
+					IsAlias:     schema.Ref != nil,
 				})
 			}
 		}
@@ -320,6 +322,9 @@ type RequestBodyComponent struct {
 	Name        string
 	Description string
 	GoTypeFn    GoTypeRenderFunc
+	// IsAlias - the body is a reference to a named type: declared as an alias,
+	// a defined type would drop the JSON methods of the type it refers to.
+	IsAlias bool
 }
 
 func (s RequestBodyComponent) Render() (string, error) {
